@@ -189,6 +189,8 @@ class Engine:
             if v.size() < 8 * nbytes: v = z3.ZeroExt(8 * nbytes - v.size(), v)
             for i in range(nbytes): st.mem[addr + i] = simp(z3.Extract(8 * i + 7, 8 * i, v))
 
+    def fresh(s):
+        s._fresh = getattr(s, '_fresh', 0) + 1; return s._fresh
     def cstring(s, st, b):
         a = s.alloc(st, len(b) + 1, 'heap')
         for i, c in enumerate(b): st.mem[a + i] = c
@@ -1020,6 +1022,13 @@ def install_string_stubs(E):
             st.freed.add(old)
         return None
     S[PFX + '10_M_disposeEv'] = dispose
+    def construct_nc(E, st, fr, I, A):
+        # _M_construct(size_type n, char c) on a string whose _M_p already points at the local buffer
+        self, n, c = A
+        if is_sym(n): raise Unsupported('symbolic string construct length')
+        E.store(st, self, 8, self + 16); E.store(st, self + 8, 8, 0)
+        s_set(E, st, self, [c if is_sym(c) else c & 0xff] * n); return None
+    S[PFX + '12_M_constructEmc'] = construct_nc
     def s_find_c(E, st, fr, I, A):
         cur = s_bytes(E, st, A[0]); c = A[1] & 0xff; pos = A[2]
         if any(is_sym(x) for x in cur): raise Unsupported('find on symbolic string')
